@@ -143,7 +143,7 @@ CLOCK_STEPS = [0.001, 0.5, 1.0, 1.0, 5.0, 700.0, 700.0, 90000.0, 31 * cw.DAY, -0
 
 def make_stale(rng, tier):
     cfg = _common_config(rng, 'stale')
-    cfg['nproc'] = rng.choice([1, 1, 2])
+    cfg['nproc'] = rng.choice([1, 1, 1, 2, 2, 2, 2, 3])
     cfg['p_yield'] = rng.choice([0.0, 0.03, 0.1, 0.25])
     cfg['p_fault'] = 0.0
     state = {'n': {}}
@@ -215,7 +215,7 @@ ALL_FAULTS = [cw.D_CRASH_BEFORE, cw.D_CRASH_AFTER, cw.D_TORN, cw.D_EIO, cw.D_ENO
 
 def make_torn(rng, tier):
     cfg = _common_config(rng, 'torn')
-    cfg['nproc'] = rng.choice([1, 2, 2])
+    cfg['nproc'] = rng.choice([1, 1, 2, 2, 2, 2, 3])
     cfg['p_yield'] = rng.choice([0.0, 0.05, 0.15, 0.3]) if cfg['nproc'] > 1 else rng.choice([0.0, 0.05])
     cfg['p_fault'] = rng.choice([0.0, 0.01, 0.03, 0.08])
     k = rng.randint(1, len(ALL_FAULTS))
@@ -254,10 +254,12 @@ def make_torn(rng, tier):
             ops.append(op)
             if cfg['nproc'] > 1 and rng.random() < 0.4:
                 # the other process works on the same entry at the same time
-                other = dict(_parse_op(rng, cfg, modes, p=1 - op['p']), g=op['g'], c=op['c'])
+                other = dict(_parse_op(rng, cfg, modes, p=(op['p'] + 1) % cfg['nproc']), g=op['g'], c=op['c'])
                 if rng.random() < 0.6:
                     other['f'] = op['f']             # ... or on another entry of the same directory
                 ops.append(other)
+                if cfg['nproc'] > 2 and rng.random() < 0.6:
+                    ops.append(dict(other, p=(op['p'] + 2) % cfg['nproc'], t=[]))     # ... and a third one
         elif r < 0.62 and 'corrupt' in enabled:
             ops.append({'k': 'corrupt', 'c': c, 'sel': rng.randrange(8), 'how': rng.choice(CORRUPTIONS),
                         'a': rng.randrange(1 << 16), 'b': rng.randrange(1 << 16), 'r': rng.randrange(1 << 30)})
